@@ -296,5 +296,26 @@ CHECKS["C14"] = dict(
     legs=[dict(name="ban", test="^TestBan$", quick=dict(n=120, procs=4, batch=30, timeout=400), thorough=dict(n=12000, procs=14, batch=60, timeout=1200))],
 )
 
+CHECKS["C09"] = dict(
+    level="exploration",
+    technique="structure-aware fuzzing by property testing (rapid) against a broker in a re-executed child process under an address-space ceiling (death / hang / "
+              "allocation / canary oracles), plus native go fuzzing of the cluster-port decoders in the thorough tier",
+    level_text="(1) client port: streams of valid request packets with extreme parameters (last/ttl/from/until/JSON numbers at 32/64-bit boundaries, 40 KiB "
+               "channels, thousands of topics, 64 KiB payloads, junk JSON, client-sent CONNACK/SUBACK) and mutations (bit flips, truncation at any offset, "
+               "inflated length bytes, continuation-byte runs, reserved types, declarations above the message size); (2) cluster port: hand-encoded state "
+               "payloads, frames, survey requests and messages handed to OnGossip / OnGossipBroadcast / OnGossipUnicast / OnSurvey / DecodeMessage, benign "
+               "(truthful lengths, minimum sizes) and hostile (short keys/values/ids, lying length prefixes, truncation, huge snappy claims, garbage). Oracle per "
+               "input: the child neither exits nor hangs, the attacked connection's goroutine terminates when the client goes away, a canary client's subscribe/publish/"
+               "echo/unsubscribe loop still works, TotalAlloc delta <= 4 KiB per input byte + 16 MiB, oversize declarations are refused.",
+    level_note="Trusted: the child-worker protocol (unacknowledged input = culprit), RLIMIT_AS 3 GB making out-of-memory observable, hand-rolled encoders of the "
+               "kelindar/binary + snappy wire formats. Aborts on the cluster port are matched against the listed findings by the innermost emitter frame; an "
+               "abort at an unlisted site, any abort/hang from the client port, or a hostile input that breaks the canary is a violation. Slow-consumer "
+               "head-of-line blocking is not hostile input and out of scope.",
+    rule="rapid-generated inputs; non-trivial = client stream longer than 2 bytes / cluster payload that the entry point decodes without error; distinct = distinct input bytes.",
+    legs=[dict(name="client", test="^TestClientPort$", quick=dict(n=1500, procs=3, timeout=600), thorough=dict(n=150000, procs=8, timeout=3000)),
+          dict(name="cluster-benign", test="^TestClusterBenign$", quick=dict(n=1500, procs=2, timeout=600), thorough=dict(n=150000, procs=4, timeout=3000)),
+          dict(name="cluster-hostile", test="^(TestProbes|TestClusterHostile)$", quick=dict(n=300, procs=3, timeout=600), thorough=dict(n=15000, procs=6, timeout=3000))],
+)
+
 for _k in CHECKS:
     NOT_APPLICABLE.pop(_k, None)
